@@ -88,11 +88,30 @@ SHARDS = {'quick': 1, 'thorough': 16}
 
 EPS = np.finfo(float).eps
 C_EPS = 1e4*EPS
-DROP = 1e-10*(1 + 1e-5)      # factor threshold of get_receiver (+ slack)
+C_EPS32 = 1e3*float(np.finfo(np.float32).eps)   # single-precision fields
+# factor threshold of get_receiver (+ slack: the checker evaluates the factors
+# with numpy in radians, emg3d with scipy's cosdg/sindg; the two may disagree
+# by rounding on which side of 1e-10 a factor lies)
+DROP = 1e-10*(1 + 1e-3)
 COUNTS = [3, 4, 5, 6, 7, 8, 3, 5]
 
+# New input dimensions (each can be switched off on its own; specs that lack
+# the corresponding key behave as before).
+ENABLE_AMPLITUDE = True      # field amplitude 10^[-30, 30], all-zero field
+ENABLE_REUSE = True          # get_magnetic_field twice / mu_r setter between
+ENABLE_FORMS = True          # mixed scalar/array tuples, length-1 containers
+ENABLE_INTS = True           # integer-typed coordinates and angles
+ENABLE_STRENGTH = True       # source strength != 1, Source.get_field route
+ENABLE_ALT_FREQ = True       # source vector with the other frequency argument
+ENABLE_OUTER_SOURCE = True   # point sources in the outermost cells / outside
+ENABLE_DTYPE32 = True        # float32 / complex64 fields (electric)
+ENABLE_SHIFT = True          # UTM-like coordinates
+
 IN_MODES = ['node', 'lo', 'hi', 'near_node', 'centre', 'uniform', 'uniform',
-            'inner']
+            'inner', 'int']
+OLD_FORMS = ['coords', 'rx']
+FORMS = ['coords', 'rx', 'coords', 'rx', 'coords_arr', 'rx_list',
+         'mixed_all', 'mixed_yz', 'mixed_ang']
 NAN_MODES = ['below_lo', 'above_hi', 'outer_lo', 'outer_hi', 'bnd_lo',
              'bnd_hi', 'out_lo', 'out_hi']
 
@@ -149,12 +168,21 @@ def point_spec(modes):
     })
 
 
-def field_spec():
+def field_spec(dtype32=False):
     return st.fixed_dictionaries({
-        'kind': st.sampled_from(['dense', 'dense', 'scaled', 'basis']),
+        'kind': st.sampled_from(
+            ['dense', 'dense', 'dense', 'scaled', 'scaled', 'basis', 'basis']
+            + (['zero'] if ENABLE_AMPLITUDE else [])),
         'complex': st.booleans(),
         'pec': st.booleans(),
         'seed': gen.SEED,
+        # decimal exponent of the amplitude (real E fields: 1e-10..1e-18)
+        'lgamp': (st.one_of(st.just(0.0), st.floats(-30, 30),
+                            st.sampled_from([-30.0, -18.0, -15.0, -12.0,
+                                             -10.0, -6.0, 6.0, 12.0, 30.0]))
+                  if ENABLE_AMPLITUDE else st.just(0.0)),
+        'dtype32': (st.sampled_from([False, False, False, True])
+                    if dtype32 and ENABLE_DTYPE32 else st.just(False)),
     })
 
 
@@ -166,23 +194,55 @@ def mag_model_spec():
     })
 
 
+def grid_spec():
+    """gen.grid_spec plus a shift of the x/y origin (UTM-like coordinates:
+    |x|/h up to 1e7; kappa() widens the tolerance accordingly)."""
+    return st.tuples(gen.grid_spec(COUNTS),
+                     st.sampled_from([0.0, 0.0, 0.0, 5e5, 6.5e6]
+                                     if ENABLE_SHIFT else [0.0])).map(
+        lambda t: dict(t[0], shift=t[1]))
+
+
+def strength_spec():
+    if not ENABLE_STRENGTH:
+        return st.none()
+    return st.fixed_dictionaries({
+        'kind': st.sampled_from(['one', 'minus_one', 'real', 'real',
+                                 'complex', 'complex']),
+        'lg': st.floats(-6, 6),
+        'seed': gen.SEED,
+    })
+
+
 def electric_strategy():
     return st.fixed_dictionaries({
-        'grid': gen.grid_spec(COUNTS),
+        'grid': grid_spec(),
         'points': st.lists(point_spec(IN_MODES), min_size=1, max_size=3),
-        'field': field_spec(),
-        'form': st.sampled_from(['coords', 'rx']),
+        'field': field_spec(dtype32=True),
+        'form': st.sampled_from(FORMS if ENABLE_FORMS else OLD_FORMS),
+        'ints': st.booleans() if ENABLE_INTS else st.just(False),
+        'strength': strength_spec(),
+        # frequency argument of the second source vector (None: only the
+        # frequency-independent vector, as before)
+        'sfreq': (st.one_of(st.none(), gen.freq_spec(), gen.freq_spec())
+                  if ENABLE_ALT_FREQ else st.none()),
     })
 
 
 def magnetic_strategy():
     return st.fixed_dictionaries({
-        'grid': gen.grid_spec(COUNTS),
+        'grid': grid_spec(),
         'mm': mag_model_spec(),
         'freq': gen.freq_spec(),
         'points': st.lists(point_spec(IN_MODES), min_size=1, max_size=3),
         'field': field_spec(),
-        'form': st.sampled_from(['coords', 'rx']),
+        'form': st.sampled_from(FORMS if ENABLE_FORMS else OLD_FORMS),
+        'ints': st.booleans() if ENABLE_INTS else st.just(False),
+        'strength': strength_spec(),
+        'reuse': st.sampled_from(['once', 'twice', 'mu_setter', 'mu_setter']
+                                 if ENABLE_REUSE else ['once']),
+        # also the frequency-independent vector of the magnetic point source
+        'alt_freq': st.just(bool(ENABLE_ALT_FREQ)),
     })
 
 
@@ -190,16 +250,19 @@ def nan_strategy():
     # one guaranteed NaN-region axis value somewhere + free mix
     mixed = IN_MODES + NAN_MODES
     return st.fixed_dictionaries({
-        'grid': gen.grid_spec(COUNTS),
+        'grid': grid_spec(),
         'mm': mag_model_spec(),
         'freq': gen.freq_spec(),
         'magnetic': st.booleans(),
-        'method': st.sampled_from(['linear', 'linear', 'cubic']),
+        'method': st.sampled_from(['linear', 'linear', 'linear', 'cubic',
+                                   'cubic', 'default']),
         'points': st.lists(st.one_of(point_spec(mixed), point_spec(IN_MODES),
                                      point_spec(IN_MODES[:3]+NAN_MODES[:2])),
                            min_size=1, max_size=4),
-        'field': field_spec(),
-        'form': st.sampled_from(['coords', 'rx']),
+        'field': field_spec(dtype32=True),
+        'form': st.sampled_from(FORMS if ENABLE_FORMS else OLD_FORMS),
+        'ints': st.booleans() if ENABLE_INTS else st.just(False),
+        'outer_source': st.just(bool(ENABLE_OUTER_SOURCE)),
     })
 
 
@@ -253,6 +316,10 @@ def resolve_axis(nodes, centres, mode, u):
     if mode == 'inner':
         a, b = centres[1], centres[n-2]
         return float(min(max(a + u*(b-a), a), b)), False
+    if mode == 'int':       # integer-valued coordinate, if there is one
+        v = float(min(max(lo + u*(hi-lo), lo), hi))
+        k = float(round(v))
+        return (k if lo <= k <= hi else v), False
     if mode == 'below_lo':
         return float(np.nextafter(lo, -np.inf)), True
     if mode == 'above_hi':
@@ -278,7 +345,7 @@ def resolve_point(grid, p):
     """-> dict(coo=(x, y, z, az, el), nan=bool, modes=[...])."""
     nodes = (grid.nodes_x, grid.nodes_y, grid.nodes_z)
     cents = (grid.cell_centers_x, grid.cell_centers_y, grid.cell_centers_z)
-    xyz, isnan = [], False
+    xyz, isnan, nan_ax = [], False, []
     for ax in range(3):
         mode, u = p['pos'][ax]
         v, nn = resolve_axis(nodes[ax], cents[ax], mode, u)
@@ -289,8 +356,39 @@ def resolve_point(grid, p):
                                f"wrong side ({nodes[ax]})")
         xyz.append(v)
         isnan |= nn
+        nan_ax.append(nn)
     return {'coo': (xyz[0], xyz[1], xyz[2], float(p['az']), float(p['el'])),
-            'nan': isnan, 'modes': [m for m, _ in p['pos']]}
+            'nan': isnan, 'nan_ax': nan_ax,
+            'modes': [m for m, _ in p['pos']]}
+
+
+SHARED = {'mixed_all': (1, 2, 3, 4), 'mixed_yz': (1, 2), 'mixed_ang': (3, 4)}
+
+
+def resolve_points(grid, points, form):
+    """All receivers of a call.  For the 'mixed_*' forms the shared entries
+    (y and z and/or both angles) of every receiver are those of the first
+    one, because they are passed to get_receiver as scalars."""
+    pts = [resolve_point(grid, p) for p in points]
+    for p in pts[1:]:
+        coo = list(p['coo'])
+        for i in SHARED.get(form, ()):
+            coo[i] = pts[0]['coo'][i]
+            if i < 3:
+                p['modes'][i] = pts[0]['modes'][i]
+                p['nan_ax'][i] = pts[0]['nan_ax'][i]
+        p['coo'] = tuple(coo)
+        p['nan'] = any(p['nan_ax'])
+    return pts
+
+
+def build_grid(gspec):
+    import emg3d
+    h, origin = gen.build_widths(gspec)
+    shift = float(gspec.get('shift', 0.0))
+    if shift:
+        origin = origin + np.array([shift, 1.3*shift, 0.0])
+    return emg3d.TensorMesh(h, origin=origin)
 
 
 def rot_own(az, el):
@@ -374,6 +472,15 @@ def face_avg_inv_mur(h, mur):
 
 
 # ------------------------------------------------------------- builders
+def amp_of(fs):
+    """Amplitude factor of the field (single precision: kept well inside
+    the normal range of float32, 1e-38..3e38, also for kind 'scaled')."""
+    lg = float(fs.get('lgamp', 0.0))
+    if fs.get('dtype32', False):
+        lg = min(max(lg, -20.0), 20.0)
+    return float(10.0**lg)
+
+
 def build_edge_field(grid, fs, freq, support, scale=1.0):
     """Random emg3d.Field on edges.  `freq` None -> dtype from spec."""
     import emg3d
@@ -392,12 +499,17 @@ def build_edge_field(grid, fs, freq, support, scale=1.0):
         j = int(cand[rng.integers(0, cand.size)])
         v = np.zeros(ne, dtype=complex if cplx else float)
         v[j] = rnd(1)[0]
+    elif kind == 'zero':
+        v = np.zeros(ne, dtype=complex if cplx else float)
     else:
         v = rnd(ne)
         if kind == 'scaled':
             v = v*10.0**rng.uniform(-4, 4, size=ne)
     v = v*scale
     if freq is None:
+        if fs.get('dtype32', False):
+            # dtype is taken from the data (only without a frequency)
+            v = v.astype(np.complex64 if cplx else np.float32)
         f = emg3d.Field(grid, data=v)
     else:
         f = emg3d.Field(grid, data=v, frequency=freq)
@@ -406,23 +518,87 @@ def build_edge_field(grid, fs, freq, support, scale=1.0):
     return f
 
 
-def make_receiver_arg(emg3d, pts, form, magnetic):
+def frozen(field):
+    """(64-bit copy for the checker's own functional, raw copy to decide
+    afterwards that the code under test left its input alone)."""
+    raw = np.array(field.field, copy=True)
+    wide = raw.astype(complex if np.iscomplexobj(raw) else float)
+    return wide, raw
+
+
+def require_unchanged(name, what, now, before):
+    now = np.asarray(now)
+    if (now.dtype != before.dtype or now.shape != before.shape or
+            not np.array_equal(now, before)):
+        n = (int(np.sum(now != before)) if now.shape == before.shape
+             else 'all')
+        raise Violation(
+            f"{name}:input_modified:{what}",
+            f"{what} was modified in place by the code under test "
+            f"({n} entries differ; dtype {before.dtype} -> {now.dtype})")
+
+
+def ints_class(pts, ints):
+    if not ints:
+        return 'ints=False'
+    n = sum(float(v) == int(v) for p in pts for v in p['coo'][:3])
+    return ('ints=True:integer_position_passed' if n else
+            'ints=True:angles_only')
+
+
+def _num(v, ints):
+    v = float(v)
+    return int(v) if ints and v == int(v) and abs(v) < 2**53 else v
+
+
+def _arr(vals, ints):
+    a = np.array([float(v) for v in vals])
+    if ints and np.all(a == np.round(a)) and np.all(np.abs(a) < 2**53):
+        return a.astype(np.int64)
+    return a
+
+
+def make_receiver_arg(emg3d, pts, form, magnetic, ints=False):
+    """Receiver argument in one of the documented formats: Rx instance, list
+    of Rx instances, tuple (x, y, z, azimuth, elevation) whose entries are
+    scalars or arrays with one entry per receiver ("all values can either be
+    a scalar or having the same length as number of receivers").  With `ints`
+    integer-valued numbers are passed as Python int / int64 arrays."""
     Rx = emg3d.RxMagneticPoint if magnetic else emg3d.RxElectricPoint
-    if form == 'rx':
-        if len(pts) == 1:
-            return Rx(pts[0]['coo'])
-        return [Rx(p['coo']) for p in pts]
-    if len(pts) == 1:
-        return tuple(pts[0]['coo'])
-    return tuple(np.array([p['coo'][k] for p in pts]) for k in range(5))
+    if form in ('rx', 'rx_list'):
+        rxs = [Rx(tuple(_num(v, ints) for v in p['coo'])) for p in pts]
+        if len(pts) == 1 and form == 'rx':
+            return rxs[0]
+        return rxs
+    if form == 'coords' and len(pts) == 1:
+        return tuple(_num(v, ints) for v in pts[0]['coo'])
+    if form in ('coords', 'coords_arr'):
+        return tuple(_arr([p['coo'][k] for p in pts], ints) for k in range(5))
+    if form in SHARED:
+        # (array azimuth with scalar elevation or vice versa is not accepted
+        # by emg3d.electrodes.rotation: both angles scalar or both arrays)
+        return tuple(_num(pts[0]['coo'][k], ints) if k in SHARED[form]
+                     else _arr([p['coo'][k] for p in pts], ints)
+                     for k in range(5))
+    raise HarnessError(f"unknown receiver form {form}")
 
 
-def sample(emg3d, field, pts, form, magnetic, method='linear'):
-    arg = make_receiver_arg(emg3d, pts, form, magnetic)
-    if form == 'rx':
+def sample(emg3d, field, pts, form, magnetic, method='linear', ints=False):
+    arg = make_receiver_arg(emg3d, pts, form, magnetic, ints)
+    if method == 'default':
+        r = emg3d.fields.get_receiver(field, arg)
+    elif form in ('rx', 'rx_list'):
         r = emg3d.fields.get_receiver(field, arg, method)
     else:
         r = field.get_receiver(arg, method=method)
+    if not isinstance(r, emg3d.utils.EMArray):
+        raise Violation("receiver_result_type",
+                        f"get_receiver returned {type(r).__name__}, "
+                        f"documented: EMArray (receivers passed as {form})")
+    if np.ndim(r) > 1:
+        raise Violation("receiver_result_shape",
+                        f"get_receiver returned shape {np.shape(r)} for "
+                        f"{len(pts)} receiver(s) passed as {form}")
     r = np.asarray(r).reshape(-1)
     if r.size != len(pts):
         raise Violation("receiver_count",
@@ -477,6 +653,8 @@ def nan_culprit(field, grid, coo, method='linear'):
     nodes = (grid.nodes_x, grid.nodes_y, grid.nodes_z)
     cents = (grid.cell_centers_x, grid.cell_centers_y, grid.cell_centers_z)
     found = []
+    if method == 'default':
+        method = 'cubic'
     for d in range(3):
         c = list(coo)
         c[d] = float(cents[d][1])
@@ -504,7 +682,7 @@ def nan_region_label(modes):
     return '+'.join(out)
 
 
-def functional(vals_c, abs_c, hull_c, kap, rot):
+def functional(vals_c, abs_c, hull_c, kap, rot, ceps=C_EPS):
     """Own value, rounding tolerance and by-design drop allowance.
 
     abs_c = sum |f| |w_c|, hull_c = sum of |f| over the entries a rounding
@@ -514,7 +692,7 @@ def functional(vals_c, abs_c, hull_c, kap, rot):
     hull_c = np.asarray(hull_c, float)
     ar = np.abs(rot)
     ref = np.sum(rot*vals_c)
-    tol0 = (C_EPS*np.sum(ar*abs_c) + 16*EPS*np.sum(abs_c) +
+    tol0 = (ceps*np.sum(ar*abs_c) + 16*EPS*np.sum(abs_c) +
             kap*np.sum((ar + 16*EPS)*hull_c))
     small = ar <= DROP
     drop = np.sum(ar[small]*abs_c[small])
@@ -554,29 +732,94 @@ def _check_point(name, r, ref_own, ip, tol0, drop, label, rcls, nan_diag):
             f"|diff|={d_ro:.3e} > {tol:.3e}; position {label}, {rcls}")
 
 
+def strength_of(sp, allow_complex):
+    """Source strength of the spec (None: not drawn -> no strength test)."""
+    if sp is None:
+        return None
+    if sp['kind'] == 'one':
+        return 1.0
+    if sp['kind'] == 'minus_one':
+        return -1
+    rng = gen.rng_of(sp['seed'], 47)
+    mag = float(10.0**sp['lg'])
+    sign = -1.0 if rng.random() < 0.5 else 1.0
+    phase = rng.uniform(0, 2*np.pi)
+    if sp['kind'] == 'complex' and allow_complex:
+        return complex(mag*np.cos(phase), mag*np.sin(phase))
+    return sign*mag
+
+
+def strength_class(c):
+    if c is None:
+        return 'not_drawn'
+    if isinstance(c, complex):
+        return 'complex'
+    return 'one' if c == 1 else 'minus_one' if c == -1 else 'real'
+
+
+def check_strength(name, emg3d, grid, rx, c, fr, unit):
+    """The source term is linear in the (documented) source strength, and
+    Source.get_field (the route Simulation takes for the back-propagated
+    residual) is get_source_field.  `unit`: vector of the same point for
+    strength 1 and the same frequency argument."""
+    src = rx._adjoint_source(rx.coordinates, strength=c)
+    a = emg3d.get_source_field(grid, src, frequency=fr)
+    b = src.get_field(grid, fr)
+    av, bv = np.asarray(a.field), np.asarray(b.field)
+    if av.dtype != bv.dtype or not np.array_equal(av, bv):
+        raise Violation(
+            f"{name}:get_field_ne_get_source_field",
+            f"{type(src).__name__}.get_field(grid, {fr}) differs from "
+            f"get_source_field(grid, source, {fr}); strength {c!r}: max "
+            f"|diff| {np.max(np.abs(av-bv)):.3e}, max |value| "
+            f"{np.max(np.abs(av)):.3e}")
+    uv = np.asarray(unit.field)
+    # (underflow floor: products of tiny weights can be subnormal)
+    lim = 16*EPS*abs(c)*np.abs(uv) + 16*np.finfo(float).tiny
+    d = np.abs(av - c*uv)
+    if not np.all(d <= lim):
+        j = int(np.argmax(np.where(np.isfinite(d), d - lim, np.inf)))
+        raise Violation(
+            f"{name}:source_not_linear_in_strength",
+            f"get_source_field with strength {c!r}, frequency {fr}: entry "
+            f"{j} is {av[j]!r}, strength * unit vector = {c*uv[j]!r} "
+            f"(|diff| {d[j]:.3e} > {lim[j]:.3e})")
+
+
 def case_electric(spec, rec):
     import emg3d
-    grid = gen.build_grid(spec['grid'])
-    pts = [resolve_point(grid, p) for p in spec['points']]
+    grid = build_grid(spec['grid'])
+    form, ints = spec['form'], spec.get('ints', False)
+    pts = resolve_points(grid, spec['points'], form)
     ws = [own_weights(grid, p['coo'][:3], True) for p in pts]
     kap = kappa(grid)
     support = np.zeros(grid.n_edges, bool)
     for w, _ in ws:
         support |= np.concatenate(w) != 0
-    field = build_edge_field(grid, spec['field'], None, support)
-    f = np.asarray(field.field)
+    fspec = spec['field']
+    field = build_edge_field(grid, fspec, None, support, amp_of(fspec))
+    # own functional from a copy taken BEFORE the code under test runs
+    f, f_raw = frozen(field)
+    single = f_raw.dtype.itemsize < (16 if np.iscomplexobj(f_raw) else 8)
+    ceps = C_EPS32 if single else C_EPS
     fc = (f[:grid.n_edges_x], f[grid.n_edges_x:grid.n_edges_x+grid.n_edges_y],
           f[grid.n_edges_x+grid.n_edges_y:])
     with warnings.catch_warnings():
         warnings.simplefilter('ignore')
-        r = sample(emg3d, field, pts, spec['form'], False)
+        r = sample(emg3d, field, pts, form, False, ints=ints)
+    require_unchanged('electric', 'field', field.field, f_raw)
+    # second source vector: with a frequency (times -s mu0)
+    sfs = spec.get('sfreq')
+    sfreq = None if sfs is None else gen.freq_of(sfs)
+    ssval = None if sfs is None else gen.sval_of(sfs)
+    c = strength_of(spec.get('strength'), sfreq is not None and sfreq > 0)
     nontriv = False
     for k, (p, (w, hl)) in enumerate(zip(pts, ws)):
         rot = rot_own(p['coo'][3], p['coo'][4])
-        vals = [np.sum(fc[c]*w[c]) for c in range(3)]
-        absv = [np.sum(np.abs(fc[c])*np.abs(w[c])) for c in range(3)]
-        hullv = [np.sum(np.abs(fc[c])*hl[c]) for c in range(3)]
-        ref, tol0, drop = functional(vals, absv, hullv, kap, rot)
+        vals = [np.sum(fc[c_]*w[c_]) for c_ in range(3)]
+        absv = [np.sum(np.abs(fc[c_])*np.abs(w[c_])) for c_ in range(3)]
+        hullv = [np.sum(np.abs(fc[c_])*hl[c_]) for c_ in range(3)]
+        ref, tol0, drop = functional(vals, absv, hullv, kap, rot, ceps)
         rx = emg3d.RxElectricPoint(p['coo'])
         src = rx._adjoint_source(rx.coordinates)
         if type(src) is not emg3d.TxElectricPoint:
@@ -588,13 +831,30 @@ def case_electric(spec, rec):
         label, rcls = pos_label(p['modes']), rot_class(rot)
         _check_point('electric', r[k], ref, ip, tol0, drop, label, rcls,
                      lambda: nan_culprit(field, grid, p['coo']))
+        unit, fr = v, None
+        if sfreq is not None:
+            vf = emg3d.get_source_field(grid, src, frequency=sfreq)
+            ipf = np.sum(f*np.asarray(vf.field))/(-ssval*mu_0)
+            _check_point('electric[source vector with frequency]', r[k], ref,
+                         ipf, tol0 + 16*EPS*float(np.sum(np.abs(rot)*absv)),
+                         drop, label, rcls, lambda: 'not_applicable')
+            unit, fr = vf, sfreq
+        if c is not None:
+            check_strength('electric', emg3d, grid, rx, c, fr, unit)
         rec.cls(f"pos={label}", f"rot={rcls}")
         if sum(absv) > 0 and (spec['grid']['kind'] != 'uniform' or
                               rcls != 'axis_aligned'):
             nontriv = True
-    rec.cls(f"field={spec['field']['kind']}",
-            f"complex={np.iscomplexobj(f)}", f"form={spec['form']}",
-            f"nrec={len(pts)}", f"widths={spec['grid']['kind']}")
+    require_unchanged('electric', 'field', field.field, f_raw)
+    rec.cls(f"field={fspec['kind']}",
+            f"complex={np.iscomplexobj(f)}", f"form={form}",
+            f"nrec={len(pts)}", f"widths={spec['grid']['kind']}",
+            ints_class(pts, ints), f"dtype={f_raw.dtype}",
+            f"amplitude={amp_class(fspec)}",
+            f"shift={spec['grid'].get('shift', 0.0):g}",
+            f"strength={strength_class(c)}",
+            "source_frequency=" + ('None' if sfs is None else 'laplace'
+                                   if sfs['laplace'] else 'frequency'))
     if nontriv:
         rec.nt([spec['grid']['seed'], spec['grid']['n'], spec['points'],
                 spec['field']['seed']])
@@ -603,24 +863,41 @@ def case_electric(spec, rec):
               'values': [complex(x) for x in r]})
 
 
+def amp_class(fs):
+    if fs['kind'] == 'zero':
+        return 'zero_field'
+    lg = float(fs.get('lgamp', 0.0))
+    return ('1' if lg == 0 else '<1e-10' if lg < -10 else '<1' if lg < 0
+            else '<1e10' if lg < 10 else '>=1e10')
+
+
 # ---------------------------------------------------------------- magnetic
-def build_mag_model(emg3d, grid, mm, fs, scale):
+def draw_mur(mm, shape, salt=41):
+    """-> (mu_r array or None, constant value or None)."""
+    rng = gen.rng_of(mm['mseed'], salt)
+    if mm['mur'] == 'none':
+        return None, 1.0
+    if mm['mur'] == 'const':
+        muc = float(rng.uniform(0.5, 5))
+        return np.full(shape, muc), muc
+    return rng.uniform(0.5, 5, size=shape), None
+
+
+def build_mag_model(emg3d, grid, mm, fs, scale, first_salt=None):
+    """Model of the spec.  With `first_salt` the model is built with another
+    mu_r of the same kind (the caller assigns the final one through the
+    Model.mu_r setter between two get_magnetic_field calls)."""
     bg = gen.bg_cond(fs, scale)
     sx, sy, sz, _, epsr = gen.build_cond(mm['model'], grid.shape_cells, bg)
-    rng = gen.rng_of(mm['mseed'], 41)
-    if mm['mur'] == 'none':
-        mur = None
-        muc = 1.0
-    elif mm['mur'] == 'const':
-        muc = float(rng.uniform(0.5, 5))
-        mur = np.full(grid.shape_cells, muc)
-    else:
-        muc = None
-        mur = rng.uniform(0.5, 5, size=grid.shape_cells)
+    mur, muc = draw_mur(mm, grid.shape_cells)
+    mur0 = mur
+    if first_salt is not None and mur is not None:
+        mur0, _ = draw_mur(mm, grid.shape_cells, first_salt)
     m = mm['model']['mapping']
     model = emg3d.Model(grid, gen.map_forward(m, sx), gen.map_forward(m, sy),
-                        gen.map_forward(m, sz), mu_r=mur, epsilon_r=epsr,
-                        mapping=m)
+                        gen.map_forward(m, sz),
+                        mu_r=None if mur0 is None else mur0.copy(),
+                        epsilon_r=epsr, mapping=m)
     return model, mur, muc
 
 
@@ -655,38 +932,89 @@ class MagFunctional:
         return g, ga, gh
 
 
+def check_hfield(name, hfield, efield, grid):
+    """get_magnetic_field returns "the magnetic field corresponding to the
+    provided electric field": a face field on the same grid with the same
+    Laplace parameter (frequency AND its sign = domain)."""
+    if hfield.electric or hfield.field.size != grid.n_faces:
+        raise Violation(f"{name}:hfield_not_on_faces",
+                        "get_magnetic_field did not return a face field")
+    if hfield._frequency != efield._frequency or hfield.grid != efield.grid:
+        raise Violation(
+            f"{name}:hfield_metadata",
+            f"get_magnetic_field: E has frequency argument "
+            f"{efield._frequency} (s={efield.sval}), the returned H has "
+            f"{hfield._frequency} (s={hfield.sval}); same grid: "
+            f"{hfield.grid == efield.grid}")
+
+
 def case_magnetic(spec, rec):
     import emg3d
-    grid = gen.build_grid(spec['grid'])
+    grid = build_grid(spec['grid'])
     fs = spec['freq']
     freq, s = gen.freq_of(fs), gen.sval_of(fs)
-    model, mur, muc = build_mag_model(emg3d, grid, spec['mm'], fs,
-                                      spec['grid']['scale'])
-    pts = [resolve_point(grid, p) for p in spec['points']]
+    form, ints = spec['form'], spec.get('ints', False)
+    reuse = spec.get('reuse', 'once')
+    if spec['mm']['mur'] == 'none' and reuse == 'mu_setter':
+        reuse = 'twice'                 # no mu_r array to assign to
+    model, mur, muc = build_mag_model(
+        emg3d, grid, spec['mm'], fs, spec['grid']['scale'],
+        first_salt=43 if reuse == 'mu_setter' else None)
+    pts = resolve_points(grid, spec['points'], form)
     mf = MagFunctional(grid, mur, s)
     vecs = [mf.vectors(p['coo'][:3]) for p in pts]
     support = np.zeros(grid.n_edges, bool)
     kap = kappa(grid)
     for g, ga, gh in vecs:
-        for c in range(3):
-            support |= ga[c] != 0
-    efield = build_edge_field(grid, spec['field'], freq, support)
-    e = np.asarray(efield.field)
+        for c_ in range(3):
+            support |= ga[c_] != 0
+    fspec = spec['field']
+    efield = build_edge_field(grid, fspec, freq, support, amp_of(fspec))
+    # own functional from copies taken BEFORE the code under test runs
+    e, e_raw = frozen(efield)
+    vol0 = np.array(model.grid.cell_volumes, copy=True)
+    px0 = np.array(model.property_x, copy=True)
     with warnings.catch_warnings():
         warnings.simplefilter('ignore')
         hfield = emg3d.get_magnetic_field(model, efield)
-        if hfield.electric or hfield.field.size != grid.n_faces:
-            raise Violation("magnetic:hfield_not_on_faces",
-                            "get_magnetic_field did not return a face field")
-        r = sample(emg3d, hfield, pts, spec['form'], True)
+        check_hfield('magnetic', hfield, efield, grid)
+        if reuse != 'once':
+            if reuse == 'mu_setter':
+                model.mu_r = mur.copy()
+            h2 = emg3d.get_magnetic_field(model, efield)
+            check_hfield('magnetic', h2, efield, grid)
+            if reuse == 'twice' and not np.array_equal(
+                    np.asarray(hfield.field), np.asarray(h2.field),
+                    equal_nan=True):
+                d = np.abs(np.asarray(hfield.field) - np.asarray(h2.field))
+                raise Violation(
+                    "magnetic:second_call_differs",
+                    f"two get_magnetic_field(model, efield) calls with the "
+                    f"same arguments give different fields: max |diff| "
+                    f"{np.nanmax(d):.3e}, max |H| "
+                    f"{np.nanmax(np.abs(np.asarray(hfield.field))):.3e}; "
+                    f"mu_r {spec['mm']['mur']}")
+            hfield = h2
+        require_unchanged('magnetic', 'efield', efield.field, e_raw)
+        require_unchanged('magnetic', 'grid.cell_volumes',
+                          model.grid.cell_volumes, vol0)
+        require_unchanged('magnetic', 'model.property_x', model.property_x,
+                          px0)
+        if mur is not None:
+            require_unchanged('magnetic', 'model.mu_r', model.mu_r, mur)
+        h_raw = np.array(hfield.field, copy=True)
+        r = sample(emg3d, hfield, pts, form, True, ints=ints)
+        require_unchanged('magnetic', 'hfield', hfield.field, h_raw)
+    c = strength_of(spec.get('strength'), freq > 0)
     nontriv = False
     for k, (p, (g, ga, gh)) in enumerate(zip(pts, vecs)):
         rot = rot_own(p['coo'][3], p['coo'][4])
-        vals = [np.sum(e*g[c]) for c in range(3)]
-        absv = [np.sum(np.abs(e)*ga[c]) for c in range(3)]
-        hullv = [np.sum(np.abs(e)*gh[c]) for c in range(3)]
+        vals = [np.sum(e*g[c_]) for c_ in range(3)]
+        absv = [np.sum(np.abs(e)*ga[c_]) for c_ in range(3)]
+        hullv = [np.sum(np.abs(e)*gh[c_]) for c_ in range(3)]
         ref, tol0, drop = functional(vals, absv, hullv, kap, rot)
-        ip = None
+        ip = ipn = None
+        label, rcls = pos_label(p['modes']), rot_class(rot)
         if muc is not None:
             rx = emg3d.RxMagneticPoint(p['coo'])
             src = rx._adjoint_source(rx.coordinates)
@@ -696,18 +1024,35 @@ def case_magnetic(spec, rec):
                                 f"{type(src).__name__}")
             sf = emg3d.get_source_field(grid, src, frequency=freq)
             ip = -np.sum(e*np.asarray(sf.field))/(s*mu_0)/muc
-        label, rcls = pos_label(p['modes']), rot_class(rot)
         _check_point('magnetic', r[k], ref, ip, tol0, drop,
                      f"{label}, mu_r {spec['mm']['mur']}", rcls,
                      lambda: nan_culprit(hfield, grid, p['coo']))
+        if muc is not None and spec.get('alt_freq', False):
+            # frequency-independent vector of the same source
+            sn = emg3d.get_source_field(grid, src, frequency=None)
+            ipn = -np.sum(e*np.asarray(sn.field))/(s*mu_0)/muc
+            _check_point('magnetic[source vector without frequency]', r[k],
+                         ref, ipn,
+                         tol0 + 16*EPS*float(np.sum(np.abs(rot)*absv)), drop,
+                         f"{label}, mu_r {spec['mm']['mur']}", rcls,
+                         lambda: 'not_applicable')
+            if c is not None and k == 1:
+                check_strength('magnetic', emg3d, grid, rx, c, None, sn)
+        if muc is not None and c is not None and k == 0:
+            check_strength('magnetic', emg3d, grid, rx, c, freq, sf)
         rec.cls(f"pos={label}", f"rot={rcls}")
         if sum(absv) > 0 and (spec['grid']['kind'] != 'uniform' or
                               rcls != 'axis_aligned'):
             nontriv = True
-    rec.cls(f"field={spec['field']['kind']}", f"laplace={fs['laplace']}",
-            f"mur={spec['mm']['mur']}", f"form={spec['form']}",
+    require_unchanged('magnetic', 'efield', efield.field, e_raw)
+    rec.cls(f"field={fspec['kind']}", f"laplace={fs['laplace']}",
+            f"mur={spec['mm']['mur']}", f"form={form}",
             f"nrec={len(pts)}", f"widths={spec['grid']['kind']}",
-            f"pec={spec['field']['pec']}")
+            f"pec={fspec['pec']}", ints_class(pts, ints),
+            f"reuse={reuse}", f"reuse={reuse},mur={spec['mm']['mur']}",
+            f"amplitude={amp_class(fspec)}",
+            f"shift={spec['grid'].get('shift', 0.0):g}",
+            f"strength={strength_class(c) if muc is not None else 'n/a'}")
     if nontriv:
         rec.nt([spec['grid']['seed'], spec['grid']['n'], spec['points'],
                 spec['field']['seed'], spec['mm']['mur']])
@@ -717,16 +1062,52 @@ def case_magnetic(spec, rec):
 
 
 # --------------------------------------------------------------------- nan
+def check_outer_source(emg3d, grid, p, magnetic):
+    """Point source of a position in an outermost cell or on the boundary
+    (receivers are NaN there, so transposition cannot be decided): the source
+    vector exists, is finite and - electric - each component sums to the
+    rotation factor (the trilinear weights are a partition of unity; their
+    individual values are not demanded).  -> class label or None."""
+    nodes = (grid.nodes_x, grid.nodes_y, grid.nodes_z)
+    coo = p['coo']
+    if any(coo[d] < nodes[d][0] or coo[d] > nodes[d][-1] for d in range(3)):
+        return None                       # outside the grid: no source
+    Tx = emg3d.TxMagneticPoint if magnetic else emg3d.TxElectricPoint
+    where = '+'.join(m for m in p['modes'] if m in NAN_MODES)
+    with warnings.catch_warnings():
+        warnings.simplefilter('ignore')
+        v = emg3d.get_source_field(grid, Tx(coo), frequency=None)
+    vv = np.asarray(v.field)
+    if vv.size != grid.n_edges or not np.all(np.isfinite(vv)):
+        raise Violation(
+            f"nan:outer_source_not_finite:{Tx.__name__}",
+            f"source vector of {Tx.__name__}{coo} ({where}) has "
+            f"{int(np.sum(~np.isfinite(vv)))} non-finite of {vv.size} entries")
+    if not magnetic:
+        rot = rot_own(coo[3], coo[4])
+        for c_, vc in enumerate((v.fx, v.fy, v.fz)):
+            tot, sab = np.sum(vc), np.sum(np.abs(vc))
+            tol = C_EPS*(sab + abs(rot[c_])) + 16*EPS
+            if abs(tot - rot[c_]) > tol:
+                raise Violation(
+                    f"nan:outer_source_moment:{'xyz'[c_]}",
+                    f"{'xyz'[c_]}-component of the source vector of "
+                    f"TxElectricPoint{coo} ({where}) sums to {tot!r}, "
+                    f"rotation factor {rot[c_]!r} (tol {tol:.2e})")
+    return f"outer_source:{'magnetic' if magnetic else 'electric'}"
+
+
 def case_nan(spec, rec):
     import emg3d
-    grid = gen.build_grid(spec['grid'])
+    grid = build_grid(spec['grid'])
     fs = spec['freq']
     freq, s = gen.freq_of(fs), gen.sval_of(fs)
     magnetic = spec['magnetic']
     method = spec['method']
-    if method == 'cubic' and min(grid.shape_cells) < 4:
+    if method in ('cubic', 'default') and min(grid.shape_cells) < 4:
         method = 'linear'       # a cubic spline needs >= 4 points per axis
-    pts = [resolve_point(grid, p) for p in spec['points']]
+    form, ints = spec['form'], spec.get('ints', False)
+    pts = resolve_points(grid, spec['points'], form)
     everything = np.ones(grid.n_edges, bool)
     fspec = dict(spec['field'])
     if fspec['kind'] == 'basis':
@@ -734,18 +1115,28 @@ def case_nan(spec, rec):
     if magnetic:
         model, mur, muc = build_mag_model(emg3d, grid, spec['mm'], fs,
                                           spec['grid']['scale'])
-        efield = build_edge_field(grid, fspec, freq, everything)
+        efield = build_edge_field(grid, fspec, freq, everything,
+                                  amp_of(fspec))
         with warnings.catch_warnings():
             warnings.simplefilter('ignore')
             field = emg3d.get_magnetic_field(model, efield)
         mf = MagFunctional(grid, mur, s)
     else:
-        field = build_edge_field(grid, fspec, None, everything)
-    f = np.asarray(field.field)
+        field = build_edge_field(grid, fspec, None, everything,
+                                 amp_of(fspec))
+    f, f_raw = frozen(field)
+    single = f_raw.dtype.itemsize < (16 if np.iscomplexobj(f_raw) else 8)
     with warnings.catch_warnings():
         warnings.simplefilter('ignore')
-        r = sample(emg3d, field, pts, spec['form'], magnetic, method)
+        r = sample(emg3d, field, pts, form, magnetic, method, ints)
+    require_unchanged('nan', 'field', field.field, f_raw)
     kind = 'magnetic' if magnetic else 'electric'
+    if spec.get('outer_source', False):
+        for p in pts:
+            if p['nan']:
+                lab = check_outer_source(emg3d, grid, p, magnetic)
+                if lab:
+                    rec.cls(lab)
     for k, p in enumerate(pts):
         got_nan = bool(np.isnan(r[k]))
         modes = p['modes']
@@ -772,6 +1163,11 @@ def case_nan(spec, rec):
                 f"in the call")
         if method != 'linear':
             continue
+        if fspec['kind'] == 'zero' and r[k] != 0:
+            raise Violation(
+                f"nan:value_ne_own_weights:{kind}",
+                f"receiver {k} of {len(pts)} returned {r[k]!r} for an "
+                f"all-zero field")
         rot = rot_own(p['coo'][3], p['coo'][4])
         if magnetic:
             # value check through the emg3d H field itself (face weights)
@@ -785,7 +1181,8 @@ def case_nan(spec, rec):
         absv = [np.sum(np.abs(f[off[c]:off[c+1]])*np.abs(w[c]))
                 for c in range(3)]
         hullv = [np.sum(np.abs(f[off[c]:off[c+1]])*hl[c]) for c in range(3)]
-        ref, tol0, drop = functional(vals, absv, hullv, kappa(grid), rot)
+        ref, tol0, drop = functional(vals, absv, hullv, kappa(grid), rot,
+                                     C_EPS32 if single else C_EPS)
         if abs(r[k]-ref) > tol0 + drop:
             raise Violation(
                 f"nan:value_ne_own_weights:{kind}",
@@ -793,7 +1190,9 @@ def case_nan(spec, rec):
                 f"give {ref!r} (tol {tol0+drop:.2e}); NaN pattern of the "
                 f"call: {[bool(q['nan']) for q in pts]}")
     rec.cls(f"kind={kind}", f"method={method}", f"nrec={len(pts)}",
-            f"form={spec['form']}",
+            f"form={form}", ints_class(pts, ints), f"dtype={f_raw.dtype}",
+            f"amplitude={amp_class(fspec)}",
+            f"shift={spec['grid'].get('shift', 0.0):g}",
             f"mix={'mixed' if 0 < sum(p['nan'] for p in pts) < len(pts) else 'pure'}")
     if any(p['nan'] for p in pts):
         rec.nt([spec['grid']['seed'], spec['grid']['n'], spec['points'],
